@@ -167,6 +167,115 @@ def tourn_case(ctx, rep, rng, lines, meta):
         meta.append(("tourn", case, [w.values[0] for w in out]))
 
 
+def prob_tourn_case(ctx, rep, rng, lines, meta):
+    """ProbabilisticTournament (default log scale): members and count for every outcome of the draws; the sampled members and
+    the index `np.searchsorted` returned are logged and replayed in the model"""
+    from bingo.selection.probabilistic_tournament import ProbabilisticTournament
+    n = rng.randrange(1, 12)
+    size = rng.randrange(1, n + 1)
+    target = rng.randrange(0, 6)
+    pop = mkpop(rng, n, nan_prob=rng.choice([0.0, 0.3, 0.8]))
+    for c in pop:                      # keep exp(f - median) finite
+        if c.key != "nan" and abs(c.key) >= 10 ** 5:
+            c.key = 3
+            c.fitness = 1.5
+    samples, indices = [], []
+    o_choice, o_search = np.random.choice, np.searchsorted
+
+    def w_choice(a, size=None, replace=True, p=None):
+        res = o_choice(a, size, replace, p)
+        try:
+            samples.append([next(i for i, c in enumerate(pop) if c is m) for m in res])
+        except (StopIteration, TypeError):
+            samples.append(None)
+        return res
+
+    def w_search(a, v, *args, **kw):
+        r = o_search(a, v, *args, **kw)
+        indices.append((len(samples), int(r)))
+        return r
+    np.random.seed(rng.randrange(2 ** 31))
+    np.random.choice, np.searchsorted = w_choice, w_search
+    try:
+        with np.errstate(all="ignore"):
+            out = ProbabilisticTournament(size, negative=rng.random() < 0.5)(pop, target)
+    finally:
+        np.random.choice, np.searchsorted = o_choice, o_search
+    case = {"pop": pop_str(pop), "tournament_size": size, "target": target, "samples": samples}
+    rep.case(("probtourn", case["pop"], size, str(samples)), target > 0 and size > 1)
+    rep.count("probabilistic_tournament_size", min(size, 6))
+    if len(out) != target:
+        rep.violate(f"probabilistic tournament returned {len(out)} winners for target {target}", "C08:tournament-count", case)
+    if any(s is None for s in samples) or len(samples) != len(out):
+        rep.disagree("the probabilistic tournament no longer draws its members with np.random.choice(population, size, replace=False)", case)
+        return
+    idx_of = {}
+    for k, i in indices:
+        idx_of[k - 1] = i
+    for k, (w, s_) in enumerate(zip(out, samples)):
+        members = [pop[i] for i in s_]
+        if not any(m.values == w.values for m in members) or any(w is c for c in pop):
+            rep.violate("probabilistic tournament winner is not a copy of a member of its tournament", "C08:tournament-member", case)
+    if ctx.driver_ok:
+        parts = [" ".join(map(str, s_)) + " / " + str(idx_of.get(k, 0)) for k, s_ in enumerate(samples)]
+        lines.append(f"probtourn ; {case['pop']}" + "".join(" ; " + p_ for p_ in parts))
+        meta.append(("probtourn", case, [w.values[0] for w in out]))
+
+
+def prob_crowd_case(ctx, rep, rng, lines, meta):
+    """ProbabilisticCrowding (default log scale): slot k holds its parent or its paired child, `target` individuals"""
+    from bingo.selection.probabilistic_crowding import ProbabilisticCrowding
+    half = 2 * rng.randrange(1, 6)
+    pop = mkpop(rng, 2 * half, nan_prob=rng.choice([0.0, 0.3, 0.7]))
+    for c in pop:
+        if c.key != "nan" and abs(c.key) >= 10 ** 5:
+            c.key = 3
+            c.fitness = 1.5
+    target = 2 * rng.randrange(0, half // 2 + 1)
+    parents, offspring = pop[:half], pop[half:]
+    closer = []
+    for i in range(target // 2):
+        p1, p2, c1, c2 = parents[2 * i], parents[2 * i + 1], offspring[2 * i], offspring[2 * i + 1]
+        closer.append(1 if p1.distance(c1) + p2.distance(c2) <= p1.distance(c2) + p2.distance(c1) else 0)
+    sel = ProbabilisticCrowding(negative=rng.random() < 0.5)
+    coins = []
+    o_most = sel._return_most_fit
+    o_random = np.random.random
+
+    def w_most(child, parent):
+        drawn = []
+
+        def w_random(*a, **k):
+            v = o_random(*a, **k)
+            drawn.append(v)
+            return v
+        np.random.random = w_random
+        try:
+            with np.errstate(all="ignore"):
+                r = o_most(child, parent)
+        finally:
+            np.random.random = o_random
+        coins.append(2 if not drawn else (1 if r is child else 0))
+        return r
+    sel._return_most_fit = w_most
+    np.random.seed(rng.randrange(2 ** 31))
+    out = sel(list(pop), target)
+    case = {"pop": pop_str(pop), "target": target, "closer": closer, "coins": coins}
+    rep.case(("probcrowd", case["pop"], target, str(coins)), target > 0)
+    rep.count("probabilistic_crowding_target", target)
+    if len(out) != target:
+        rep.violate(f"probabilistic crowding returned {len(out)} individuals for target {target}", "C08:crowding-count", case)
+    for i in range(min(target, len(out)) // 2):
+        pairs = [(2 * i, offspring[2 * i] if closer[i] else offspring[2 * i + 1]),
+                 (2 * i + 1, offspring[2 * i + 1] if closer[i] else offspring[2 * i])]
+        for slot, child in pairs:
+            if out[slot] is not parents[slot] and out[slot] is not child:
+                rep.violate(f"probabilistic crowding slot {slot} holds neither its parent nor its paired child", "C08:crowding-pairing", case)
+    if ctx.driver_ok:
+        lines.append(f"probcrowd ; {case['pop']} ; {target} ; {' '.join(map(str, closer))} ; {' '.join(map(str, coins))}")
+        meta.append(("crowd", case, [c.values[0] for c in out]))
+
+
 def crowd_case(ctx, rep, rng, lines, meta):
     half = 2 * rng.randrange(1, 6)
     pop = mkpop(rng, 2 * half, nan_prob=rng.choice([0.0, 0.3, 0.7]))
@@ -239,6 +348,9 @@ def run(ctx, rep):
         crowd_case(ctx, rep, rng, lines, meta)
     for t in range(ctx.n(150, 1500)):
         prob_case(ctx, rep, rng)
+    for t in range(ctx.n(300, 3000)):
+        prob_tourn_case(ctx, rep, rng, lines, meta)
+        prob_crowd_case(ctx, rep, rng, lines, meta)
     if ctx.driver_ok:
         outs = run_driver(lines)
         rep.corr_cases = len(lines)
